@@ -710,8 +710,33 @@ func (f *Frame) enterLoop(li *loopInfo, b *ssa.BasicBlock) {
 		li.phiNew[phi] = nv
 	}
 	st := f.st.Clone()
+	precise := f.loopPreciseKeys(li)
+	allocPre := f.st.Get(allocKey, ArrayS(IntS, BoolS))
+	f.E.noteVars(allocPre)
 	for _, k := range sortedKeys(li.modkeys) {
 		s := li.modkeys[k]
+		if pk := precise[k]; pk != nil && s.K == SArray && s.Idx.K == SInt {
+			cur := f.st.Get(k, s)
+			f.E.noteVars(cur)
+			if !pk.fresh {
+				nt := cur
+				for _, o := range pk.objs {
+					nt = Store(nt, f.val(o).X, f.fresh("hv$"+k, s.Elem))
+				}
+				st.Set(k, s, f.E.name(nt, f.prefix+"hv$"+k))
+				continue
+			}
+			nv := f.fresh("hv$"+k, s)
+			ob := Bound{Name: "o!lf", S: IntS}
+			ov := Var(ob.Name, IntS)
+			conds := []*Term{Select(allocPre, ov)}
+			for _, o := range pk.objs {
+				conds = append(conds, Neq(ov, f.val(o).X))
+			}
+			f.assume(Forall([]Bound{ob}, Implies(And(conds...), Eq(Select(nv, ov), Select(cur, ov)))), "loop writes only the listed and freshly allocated objects")
+			st.Set(k, s, nv)
+			continue
+		}
 		st.Set(k, s, f.fresh("hv$"+k, s))
 	}
 	if _, ok := li.modkeys[allocKey]; ok {
